@@ -500,10 +500,22 @@ var VerifGlobals = map[string]interface{}{
 // every package-level variable of both packages. Regexps are rendered by
 // pattern and identity, funcs by identity.
 func VerifSnapshot(p *Policy) string {
+	return VerifSnapshotPolicy(p) + VerifSnapshotGlobals()
+}
+
+// VerifSnapshotPolicy renders the object graph of the policy only.
+func VerifSnapshotPolicy(p *Policy) string {
 	var b strings.Builder
 	seen := map[uintptr]bool{}
 	b.WriteString("policy=")
 	verifDump(&b, reflect.ValueOf(p), seen, 0)
+	return b.String()
+}
+
+// VerifSnapshotGlobals renders every package-level variable of both packages.
+func VerifSnapshotGlobals() string {
+	var b strings.Builder
+	seen := map[uintptr]bool{}
 	names := make([]string, 0, len(VerifGlobals)+len(css.VerifGlobalsCSS))
 	all := map[string]interface{}{}
 	for k, v := range VerifGlobals {
